@@ -109,7 +109,7 @@ CHECKS = {
                 "(user tokens are user rows), nine kinds of invalid user CSVs must yield Err on mapped and unmapped dictionaries. "
                 "Distinct = hash of (dictionary, history, sentence).",
         "required_buckets": ["history_ends_with_clear", "history_replaces_lexicon", "history_ends_with_load", "user_token_on_best_path",
-                             "system_token_with_user_lexicon_loaded", "invalid_rows_on_mapped_dictionary",
+                             "system_token_with_user_lexicon_loaded", "invalid_rows_on_mapped_dictionary", "dictionary_mapped_twice",
                              "invalid_user_lexicon_rejected_left_id_out_of_range", "invalid_user_lexicon_rejected_right_id_out_of_range",
                              "invalid_user_lexicon_rejected_too_few_columns"],
         "assumptions": ["byte identity of images after clear is not required (the property speaks of behaviour)"],
@@ -145,7 +145,7 @@ CHECKS = {
                 "the AVX2 stage reads the images written by the portable stage (and a second portable stage those written by the AVX2 "
                 "stage): readable, re-written byte-identically, token-for-token the same results. Distinct = hash of (image, later operations).",
         "required_buckets": ["connector_matrix", "connector_raw", "connector_dual", "with_user_lexicon", "with_id_mapping", "later_load_user",
-                             "later_clear", "later_map", "later_write_read", "failing_writer_yields_err_and_prefix",
+                             "later_clear", "later_map", "later_write_read", "failing_writer_yields_err_and_prefix", "image_read_through_chunked_reader",
                              "foreign_image_read_rewritten_and_tokenized_identically"],
         "assumptions": ["images are compared between a portable and an AVX2 build made by the same compiler on this machine"],
     },
@@ -169,7 +169,8 @@ CHECKS = {
                 "Distinct = hash of the model / key set.",
         "required_buckets": ["templates_lt8", "templates_eq8", "templates_gt8_not_multiple", "templates_multiple_of_8", "ragged_rows",
                              "cost_entry_for_empty_empty", "cost_entry_with_one_empty_side", "quoted_feature_cells",
-                             "cell_read_through_probe_sentence", "scorer_small_scope_enumerated", "scorer_random_key_sets"],
+                             "cell_read_through_probe_sentence", "scorer_small_scope_enumerated", "scorer_random_key_sets",
+                             "connector_compared_after_write_read", "connector_compared_after_id_mapping"],
         "assumptions": ["bigram.cost never names the feature '*' and feature strings contain no '/' or tab (the file format cannot express them)",
                         "the generator bounds costs so that the dual connector's stated precondition (pre-summed part fits 16 bits) always holds"],
     },
